@@ -459,6 +459,7 @@ impl World for HsWorld {
             &self.token_first_addr,
             &self.connected,
             self.limit_lowered,
+            self.next_seq,
         ))
     }
 
